@@ -77,6 +77,24 @@ def guarded(f, ctx, *a):
         raise
 
 
+def error_shape(cfg, path):
+    """Abstract shape of the history an exception occurred on (used in finding signatures, so that a
+    known defect only matches the kind of input it was found on)."""
+    from .configs import autos_of
+    flags = []
+    for ev in path:
+        if ev[0] == 'show_or_muck_hole_cards' and len(ev) > 1 and ev[1] is False:
+            flags.append('after-muck')
+            break
+    try:
+        au = {a.name for a in autos_of(cfg.get('autos'))}
+    except Exception:
+        au = set()
+    if ({'HOLE_DEALING', 'BOARD_DEALING'} & au) and 'CARD_BURNING' not in au:
+        flags.append('dealing-automated-burning-manual')
+    return '+'.join(flags) or 'plain'
+
+
 class Node:
     __slots__ = ('st', 'ms', 'nid', 'depth', 'devs')
 
